@@ -72,6 +72,32 @@ def desugar(loc, relfile, fn_paths, rules):
                     rewrites.append((v["call"][0], v["call"][1], new))
                     records.append({"fn": fp, "rule": "D3 X.iter().filter(|p| C).copied().collect::<Vec<_>>()  =>  { let mut out = Vec::new(); for p in X.iter() { if C { out.push(*p); } } out }",
                                     "original": src[v["call"][0]:v["call"][1]], "rewritten": new})
+                elif v["rule"] == "D1":
+                    recv = src[v["recv"][0]:v["recv"][1]]
+                    idx = src[v["idx"][0]:v["idx"][1]]
+                    pat = src[v["pat"][0]:v["pat"][1]]
+                    new = (f"let mut pv_{idx}: usize = 0; while pv_{idx} < {recv}.len() {{ let {idx} = pv_{idx}; let {pat} = &{recv}[pv_{idx}]; pv_{idx} += 1;")
+                    rewrites.append((v["call"][0], v["call"][1], new))
+                    records.append({"fn": fp, "rule": "D1 for (i, p) in X.iter().enumerate() { B }  =>  let mut k = 0; while k < X.len() { let i = k; let p = &X[k]; k += 1; B }",
+                                    "original": src[v["call"][0]:v["call"][1]], "rewritten": new})
+                elif v["rule"] == "D2":
+                    recv = src[v["recv"][0]:v["recv"][1]]
+                    idx = src[v["idx"][0]:v["idx"][1]]
+                    pat = src[v["pat"][0]:v["pat"][1]]
+                    body = src[v["body"][0]:v["body"][1]]
+                    new = (f"{{ let mut pv_c = Vec::new(); let mut pv_{idx}: usize = 0; while pv_{idx} < {recv}.len() {{ let {idx} = pv_{idx}; let {pat} = &{recv}[pv_{idx}]; pv_{idx} += 1; "
+                           f"match {body} {{ Some(pv_e) => {{ pv_c.push(pv_e); }} None => {{}} }} }} pv_c.into() }}")
+                    rewrites.append((v["call"][0], v["call"][1], new))
+                    records.append({"fn": fp, "rule": "D2 X.iter().enumerate().filter_map(|(j, q)| E).collect()  =>  { let mut out = Vec::new(); index loop { match E { Some(e) => out.push(e), None => {} } } out.into() }   (assumes FromIterator and From<Vec<_>> of the target agree)",
+                                    "original": src[v["call"][0]:v["call"][1]], "rewritten": new})
+                elif v["rule"] == "D15":
+                    recv = src[v["recv"][0]:v["recv"][1]]
+                    pat = src[v["pat"][0]:v["pat"][1]]
+                    body = src[v["body"][0]:v["body"][1]]
+                    new = (f"{{ let mut pv_c = Vec::new(); let mut pv_k: usize = 0; while pv_k < {recv}.len() {{ let {pat} = &{recv}[pv_k]; pv_k += 1; pv_c.push({body}); }} pv_c.into() }}")
+                    rewrites.append((v["call"][0], v["call"][1], new))
+                    records.append({"fn": fp, "rule": "D15 X.iter().map(|p| E).collect()  =>  { let mut out = Vec::new(); index loop { out.push(E) } out.into() }   (assumes FromIterator and From<Vec<_>> of the target agree)",
+                                    "original": src[v["call"][0]:v["call"][1]], "rewritten": new})
                 elif v["rule"] == "D14":
                     recv = src[v["recv"][0]:v["recv"][1]]
                     pat = src[v["pat"][0]:v["pat"][1]]
